@@ -64,7 +64,7 @@ fn any_pk() -> BBSplusPublicKey {
     // any G2 element, the identity included (a decoder may hand it to the operations)
     let v: u16 = kani::any();
     kani::assume((v as u32) < Q);
-    BBSplusPublicKey(G2Projective(v))
+    BBSplusPublicKey(G2Projective::from_dlog(v))
 }
 fn any_msgs<const N: usize>() -> (Vec<Vec<u8>>, [u8; N]) {
     let raw: [u8; N] = kani::any();
@@ -81,7 +81,7 @@ fn any_sig_bytes() -> [u8; 80] {
     // decoding it does not branch on the symbolic payload
     let mut b = [0u8; 80];
     put_g1(&mut b, 0);
-    put_scalar(&mut b, 48);
+    put_nonzero_scalar(&mut b, 48);
     b
 }
 /// arbitrary decodable proof with U undisclosed responses, built through the real decoder
@@ -267,7 +267,7 @@ pub fn op_proof_gen<CS: BbsCiphersuite, const SLEN: usize, const L: usize, const
     let mut sb = [0u8; SLEN];
     if SLEN == 80 {
         put_g1(&mut sb, 0);
-        put_scalar(&mut sb, 48);
+        put_nonzero_scalar(&mut sb, 48);
     } else {
         let mut i = 0;
         while i < SLEN {
